@@ -182,12 +182,21 @@ func body(cfg config, obs *observation) {
 			} else {
 				as = append(as, &masset{ledgers[a]})
 			}
-			bals = append(bals, []channel.Bal{big.NewInt(1), big.NewInt(1)})
+			// participant 0 (the one that calls) owns nothing of every other asset: a ledger is called
+			// because the channel has an asset there, not because the caller has a balance on it
+			bals = append(bals, []channel.Bal{big.NewInt(int64(len(bals) % 2)), big.NewInt(1)})
 			bk = append(bk, 0)
 		}
 		params := &channel.Params{ChallengeDuration: 60}
 		st := &channel.State{Allocation: channel.Allocation{Assets: as, Backends: bk, Balances: bals}}
 		ctx := context.Background()
+		if cfg.method == "fund" && cfg.fail&1 != 0 {
+			// half of the failing configurations run with a funding deadline that has passed already:
+			// a failed sub-call is a failure whatever the clock says
+			var cancel context.CancelFunc
+			ctx, cancel = context.WithDeadline(ctx, time.Now().Add(-time.Second))
+			defer cancel()
+		}
 		if cfg.method == "fund" {
 			f := multi.NewFunder()
 			for i, l := range ledgers {
